@@ -108,6 +108,8 @@ def run_checks(ids, tier, all_props, runs=None, benign=False):
             if rc != 0:
                 print(sid, "patch does not apply to the current /repo tree:", o[-200:]); continue
             props = ["C06", "C08", "C09", "C12", "C13", "C14", "C19"] if all_props else [meta["property"]]
+            if os.environ.get("SEEDED_PROPS"):
+                props = os.environ["SEEDED_PROPS"].split(",")
             for p in props:
                 env = dict(os.environ, SYM_METANET_SRC=f"{tmp}/r/src")
                 cmd = [PY, "-m", "sim.check", p, "--tier", tier, "--no-evidence"] + (["--runs", str(runs)] if runs else [])
